@@ -148,7 +148,7 @@ def run(rep):
                 ">= 10 nodes; distinct by source text")
     rep.assumptions = ["error *spans* are not compared here (C16 checks spans); kind and name are",
                        "the model's root environment is {std}, as load_source(with_stdlib=true)"]
-    vlib.prelude(rep)
+    vlib.prelude(rep, extra_modules=['RsjProps.C09Eval'])
     rng = rep.rng
     nbase = 250 if rep.tier == 'quick' else 6000
     gen = G.Gen(rng, max_depth=4)
